@@ -15,6 +15,7 @@ import QSP.Model.FPSearch
 import QSP.Model.Pipeline
 import QSP.Model.Cli
 import QSP.Model.Interleave
+import QSP.Model.Completion
 open QSP QSP.Proto
 
 def bad : String := "bad-op"
@@ -347,6 +348,14 @@ def handle (toks : List String) : String :=
     match parseRatList pre, parseRatList pim, parseRatList qre, parseRatList qim with
     | some a, some b, some c, some d => let r := interleavePQ a b c d; s!"{showRatList r.1} {showRatList r.2}"
     | _, _, _, _ => bad
+  | ["fg.complete", thr, norm, seed, roots] =>
+    match parseRat thr, parseRat norm, parseList parseCQ roots with
+    | some t, some n, some rs =>
+      let sd : List Bool := if seed = "-" then [] else seed.toList.map (· == '1')
+      match completeFG t rs sd n with
+      | some (g, ratio) => s!"{showRatList g} {showRat ratio}"
+      | none => "none"
+    | _, _, _ => bad
   -- sup-norm certificate -----------------------------------------------------------------
   | ["sup.real", bnd, depth, d, l] =>
     match parseRat bnd, depth.toNat?, d.toInt?, parseRatList l with
